@@ -1,16 +1,17 @@
-import Bch.Tie
+import Bch.Tie.Locking
+import Bch.Tie.Gcs
 namespace Bch.Props.C20
 open Bch.Model.Locking
 
 /-- every exported method of bloom.Filter (skeletons regenerated from the source) is well bracketed -/
 theorem wellBracketed_all :
     ∀ m ∈ Bch.Generated.bloomSkeletons, wellBracketed m.2 = true := by
-  have h := Bch.Tie.tie_bloom_lock_discipline
+  have h := Bch.Tie.Locking.tie_bloom_lock_discipline
   simpa [List.all_eq_true] using h
 
 /-- gcs.Filter methods never write receiver state -/
 theorem C20_gcs_immutable : ∀ m ∈ Bch.Generated.gcsWrites, m.2 = 0 := by
-  have h := Bch.Tie.tie_gcs_immutable
+  have h := Bch.Tie.Gcs.tie_gcs_immutable
   simpa [List.all_eq_true] using h
 
 end Bch.Props.C20
